@@ -136,6 +136,15 @@ def main(argv):
     cmds = []
     all_obl, all_failed, all_artifact = set(), set(), set()
     for r in main_runs:
+        # statement ranges whose anchors are lost: undecided for the properties that claim their obligations, nobody else's business
+        for li in r["asm"].get("lost", []):
+            probe = [f"{li['unit']}.{li['fn']}.body", f"{li['unit']}.{li['fn']}.x"]
+            claimed = any(matches(pb, include) and not matches(pb, exclude) for pb in probe) \
+                or any(pat.startswith(f"{li['unit']}.{li['fn']}.") for pat in include)
+            if claimed:
+                m_ = f"{li['unit']}.{li['fn']}: {li['reason']}"
+                if m_ not in undecided:
+                    undecided.append(m_)
         lm = r["asm"]["linemap"]
         all_obl |= set(lm["obligations"])
         all_failed |= set(r["cls"]["failed"]) | set(r["cls"]["rlimit"])
